@@ -20,6 +20,8 @@ func Execute(sc *Scenario) error {
 		return e.runHandshake()
 	case "rpc":
 		return e.runRPC()
+	case "methods":
+		return e.runMethods()
 	}
 	return fmt.Errorf("unknown scenario kind %q", sc.Kind)
 }
